@@ -143,6 +143,8 @@ mod tally;
 pub mod templates;
 #[cfg(feature = "verif")]
 pub mod verif;
+#[cfg(feature = "verif")]
+pub mod verif_b;
 pub mod wallet;
 
 type Result<T = (), E = Error> = std::result::Result<T, E>;
